@@ -424,7 +424,11 @@ func (ev *Evaluator) expr(env *Env, e ast.Expr) Value {
 		}
 		ev.fail(e.Pos(), "dereference of non-reference %s", Show(x))
 	case *ast.TypeAssertExpr:
-		ev.fail(e.Pos(), "type assertion not supported")
+		v, ok := ev.typeAssert(env, e)
+		if !ok {
+			ev.fail(e.Pos(), "failing single-value type assertion (run-time panic)")
+		}
+		return v
 	}
 	ev.fail(e.Pos(), "unsupported expression %T", e)
 	return nil
